@@ -404,18 +404,25 @@ std::string check(const Case& c, vf::Ctx& ctx)
         if (syn.find(w) == std::string::npos)
             return "the synopsis does not mention " + vf::vis(w) + ": " + vf::vis(syn, 400);
     // ---- (5) width of synopsis lines
+    // A line may exceed 80 columns only because of ONE unbreakable word: that word is the last
+    // one on its line, it cannot fit the area at all, and the line without it is within bounds.
     for (auto& l : syn_lines)
         if (l.size() > 80)
         {
             bool forced = false;
+            // the text column of a synopsis line starts behind "usage: <app> "
+            std::string rest = l.size() > 8 + c.app.size() ? l.substr(8 + c.app.size()) : std::string();
+            while (!rest.empty() && rest[0] == ' ')
+                rest.erase(0, 1);
             for (auto& w : syn_words)
-                if (w.size() + 1 > syn_avail && l.find(w) != std::string::npos)
+                if (w.size() + 1 > syn_avail && rest == w)
                     forced = true;
             if (c.app.size() + 8 >= 80)
                 forced = true;
             if (!forced)
                 return "synopsis line of " + std::to_string(l.size()) +
-                       " columns without an unbreakable word forcing it: " + vf::vis(l, 200);
+                       " columns whose text column holds more than one single unbreakable word: " +
+                       vf::vis(l, 260);
             ctx.tag("width:forced-long-line");
         }
 
@@ -504,12 +511,17 @@ std::string check(const Case& c, vf::Ctx& ctx)
                 if (l.size() > 80)
                 {
                     bool forced = false;
+                    // the text column starts at column 40
+                    std::string rest = l.size() > 40 ? l.substr(40) : std::string();
+                    while (!rest.empty() && rest[0] == ' ')
+                        rest.erase(0, 1);
                     for (auto& w : want)
-                        if (w.size() + 1 > 40 && l.find(w) != std::string::npos)
+                        if (w.size() + 1 > 40 && rest == w)
                             forced = true;
                     if (!forced)
                         return "option section line of " + std::to_string(l.size()) +
-                               " columns without an unbreakable word forcing it: " + vf::vis(l, 200);
+                               " columns whose text column holds more than one single unbreakable word: " +
+                               vf::vis(l, 260);
                     ctx.tag("width:forced-long-line");
                 }
         }
